@@ -277,6 +277,9 @@ for trial in range(%d):
             got = np.array(r[z + 1]["rates"])
             want = np.round(np.array(tabs[z]), 5).T
             if got.shape != (nne, nte) or not np.allclose(got, want, atol=2e-5): bad.append(("adf11", trial, z)); break
+            gne, gte = np.array(r[z + 1]["ne"]), np.array(r[z + 1]["te"])
+            if gne.shape != (nne,) or gte.shape != (nte,) or not np.allclose(gne, np.round(ne, 5), atol=2e-5) or not np.allclose(gte, np.round(te, 5), atol=2e-5):
+                bad.append(("adf11-axes", {"n_densities": nne, "n_temperatures": nte, "first_log10_te": round(te[0], 5), "parsed_ne_shape": list(gne.shape), "parsed_te_shape": list(gte.shape)})); break
     except Exception as e:
         bad.append(("adf11-error", trial, repr(e)[:80]))
     # metastable-resolved ADF11: a line with the metastable counts after the header, several IPRT/IGRD blocks carrying the same Z1
